@@ -302,15 +302,27 @@ func (c *Ctx) frameItems0(ct *Contract, names calleeNames, args []Val, st *State
 	c.touchAll(st)
 	c.touchAll(c.entryState)
 	foreign := ""
+	allStreams := false
 	for _, l := range locs {
 		if l.foreign != "" {
 			foreign = l.foreign
+		}
+		if l.streams {
+			allStreams = true
 		}
 	}
 	for _, k := range sortedKeys(st.heap) {
 		it := frameItem{key: k, post: st.heap[k]}
 		if foreign != "" && !ownedKey(k, foreign) && !(strings.HasPrefix(k, "ghost.const.") || k == "ghost.lim" || k == "ghost.sid" || k == "ghost.bsize" || k == "ghost.data") {
 			it.whole = true
+		}
+		if allStreams && (k == "ghost.pos" || k == "ghost.peeked" || k == "ghost.fault" || k == "ghost.sid" || k == "ghost.lim") {
+			it.whole = true
+		}
+		for _, l := range locs {
+			if l.streamId != "" && (k == "ghost.sid" || k == "ghost.lim") {
+				it.locs = append(it.locs, l.streamId)
+			}
 		}
 		pre, okp := c.entryState.heap[k]
 		if !okp {
